@@ -38,6 +38,9 @@ pub enum Op {
     ConConst,
     /// constrain over committed variables (and the constant) only
     ConCommitted,
+    /// constrain(expression tree - const): the tree is built with every linear-combination
+    /// operator (seed, depth) -- C15
+    ConTree(u64, usize),
     /// cs.transcript().append_message(b"app-data", ..)
     Msg(String),
     /// challenge_scalar (second phase only)
@@ -185,8 +188,9 @@ impl<G: AffineRepr> Shared<G> {
         use rand::Rng;
         let base = match self.coef {
             Coef::Sym => Some(self.draw("c")),
-            Coef::Mixed(_) => match self.coef_rng.gen_range(0..6u32) {
+            Coef::Mixed(_) => match self.coef_rng.gen_range(0..7u32) {
                 0 => None,
+                6 => Some(FOf::<G>::zero()),
                 1 => Some(FOf::<G>::one()),
                 2 => Some(-FOf::<G>::one()),
                 3 => Some(FOf::<G>::from(self.coef_rng.gen_range(2..7u64))),
@@ -436,6 +440,37 @@ pub fn run_ops<G: AffineRepr, CS: RoleCS<G>>(cs: &mut CS, ops: &[Op], shr: &Rc<R
                 cs.constrain(LinearCombination::from(ca) + lc + LinearCombination::from(c - ca));
                 sh.con_vals.push(e);
                 sh.cons.push((terms, c));
+            }
+            Op::ConTree(seed, depth) => {
+                use rand::Rng;
+                let mut trng = rand_chacha::ChaChaRng::seed_from_u64(*seed);
+                let handles: Vec<Variable<FOf<G>>> = sh.vars.iter().map(|v| v.0).collect();
+                let vals: Vec<FOf<G>> = sh.vars.iter().map(|v| v.1).collect();
+                let tree = {
+                    let mut coef = |r: &mut rand_chacha::ChaChaRng| -> FOf<G> {
+                        match r.gen_range(0..8u32) {
+                            0 => FOf::<G>::zero(),
+                            1 | 2 => FOf::<G>::one(),
+                            3 => -FOf::<G>::one(),
+                            4 => FOf::<G>::from(2u64),
+                            _ => sh.draw("c"),
+                        }
+                    };
+                    crate::expr::random_tree::<FOf<G>>(&mut trng, handles.len(), *depth, &mut coef)
+                };
+                let lc = crate::expr::build(&tree, &handles);
+                let val = crate::expr::eval(&tree, &vals);
+                let (dense, k0) = crate::expr::flatten(&tree, handles.len());
+                let q = sh.n_explicit_con;
+                sh.n_explicit_con += 1;
+                let e = if sh.err.con.contains(&q) { sh.draw("err") } else { FOf::<G>::zero() };
+                // constrain(expr - c) with c = value(expr) - e
+                let c = val - e;
+                cs.constrain(lc - c);
+                sh.con_vals.push(e);
+                let terms: Vec<(VK, usize, FOf<G>)> = handles.iter().zip(dense.iter()).map(|(h, co)| { let (k, i) = vkey(h).unwrap(); (k, i, *co) }).collect();
+                sh.cons.push((terms, k0 - c));
+                sh.handles.push(format!("tree:{}", crate::expr::show(&tree)));
             }
             Op::Msg(s) => {
                 cs.transcript().append_message(b"app-data", s.as_bytes());
